@@ -39,5 +39,5 @@ Proof.
   { unfold all_fields. repeat apply in_prod; apply in_zrange; simpl; lia. }
   specialize (H Hin). cbv beta iota zeta delta [field_ok] in H. cbv zeta.
   repeat (apply andb_true_iff in H; destruct H as [H ?]).
-  Show. repeat split; try apply Z.eqb_eq; assumption.
+  repeat split; try (apply Z.eqb_eq; assumption). unfold in_uint16. rewrite H, H8. reflexivity.
 Qed.
